@@ -455,7 +455,13 @@ def sizes(name, thorough):
         top = min(top, 100 if thorough else 40)
     if name == "RectangleRuleSineEndPoints" and thorough:
         top = 96
-    return [-1, 0] + list(range(1, top + 1))
+    out = [-1, 0] + list(range(1, top + 1))
+    # rules whose weights are a cosine / sine SERIES of about n/2 terms (and the cheap closed forms): sizes around the block
+    # lengths an implementation might sum the series in (64, 128, 256, ...), beyond the contiguous range (added after seeded
+    # change C01-K: a blocked summation that drops the last partial block is bit-identical up to n = 129)
+    if name in ("ClenshawCurtis", "FejerFirst", "FejerSecond", "GaussChebyshev", "GaussChebyshevType2", "GaussChebyshevLobatto", "MidPoint", "Trapezoidal"):
+        out += [129, 130, 131, 193, 257, 258] + ([132, 160, 191, 192, 255, 256, 259, 321, 385, 513, 600] if thorough else [])
+    return out
 
 
 def run(ctx):
